@@ -115,6 +115,15 @@ class QRCode(Generic[GenericImage]):
         self._version = value
 
     @property
+    def border(self) -> int:
+        return self._border
+
+    @border.setter
+    def border(self, value) -> None:
+        _check_border(value)
+        self._border = int(value)
+
+    @property
     def mask_pattern(self):
         return self._mask_pattern
 
